@@ -79,7 +79,7 @@ func runC01(r *Run, p *Prog) {
 	})
 	// ---- R3
 	r.Guard("R3", func() {
-		replyT := p.NamedType(pkgVarlink, "serviceReply")
+		replyT := replyF.Type
 		if replyT == nil {
 			r.Unresolved("R3", "type serviceReply")
 			return
@@ -115,8 +115,8 @@ func runC01(r *Run, p *Prog) {
 				}
 				n++
 				fs := fieldStores(rep)
-				cont := fs["Continues"]
-				isErr := len(fs["Error"]) > 0
+				cont := fs[replyF.Continues]
+				isErr := len(fs[replyF.Error]) > 0
 				site := cs.Instr
 				atSite := func(i ssa.Instruction) bool { return i == site }
 				moreTrue := func(fs []Fact) bool { return callFlagFact(fs, ".In.More", true) }
@@ -130,7 +130,7 @@ func runC01(r *Run, p *Prog) {
 					// to the send that pass no such store send continues=false and need Continues == false
 					var contStores []ssa.Instruction
 					for _, ref := range *rep.Referrers() {
-						if fa, ok := ref.(*ssa.FieldAddr); ok && fieldName(fa.X, fa.Field) == "Continues" {
+						if fa, ok := ref.(*ssa.FieldAddr); ok && fieldName(fa.X, fa.Field) == replyF.Continues {
 							for _, r2 := range *fa.Referrers() {
 								if st, ok := r2.(*ssa.Store); ok && st.Addr == ssa.Value(fa) {
 									contStores = append(contStores, st)
@@ -369,7 +369,7 @@ func escapesToShared(a *ssa.Alloc) string {
 					return "stored into package variable " + g.Name()
 				}
 				if fa, ok := x.Addr.(*ssa.FieldAddr); ok {
-					if isNamed(fa.X.Type(), pkgVarlink, "Service") {
+					if isServiceState(fa.X.Type()) {
 						return "stored into Service." + fieldName(fa.X, fa.Field)
 					}
 					// stored into another local struct (the Call): follow that struct
